@@ -838,4 +838,315 @@ theorem run_simF {pu : Prop} {par : Nat → Sess} {P : Nat → Nat → Nat → P
 theorem relF_init (mx : Nat → Nat) (now0 : Nat) (sess : List Sess) : RelF mx (Msg.init now0 sess) (Timer.init now0) :=
   ⟨Nat.le_refl _, rfl, rfl, rfl⟩
 
+/-! ### transmissions seen on M are transmissions of S, and back (through the list of transmissions) -/
+
+theorem tx_M_to_S {l : L} {ts : TS} (ho : txsS ts.outs = txsM l.out)
+    {t s mid k : Nat} {c : Bool} (h : Out.tx t s mid k c ∈ l.out) :
+    c = true ∧ ∃ t0 T mx, TOut.tx t s mid k t0 T mx ∈ ts.outs := by
+  have h1 : Obs.tx t s mid k c ∈ txsM l.out :=
+    List.mem_filter.2 ⟨List.mem_filterMap.2 ⟨_, h, rfl⟩, rfl⟩
+  rw [← ho] at h1
+  obtain ⟨o, ho1, ho2⟩ := List.mem_filterMap.1 (List.mem_filter.1 h1).1
+  cases o with
+  | tx t' s' mid' k' t0 T mx =>
+    simp only [obsS, Option.some.injEq, Obs.tx.injEq] at ho2
+    obtain ⟨rfl, rfl, rfl, rfl, rfl⟩ := ho2
+    exact ⟨rfl, t0, T, mx, ho1⟩
+  | nackRetries _ _ _ => simp [obsS] at ho2
+  | nackRst _ _ _ => simp [obsS] at ho2
+  | acked _ _ _ => simp [obsS] at ho2
+
+theorem tx_S_to_M {l : L} {ts : TS} (ho : txsS ts.outs = txsM l.out)
+    {t s mid k t0 T mx : Nat} (h : TOut.tx t s mid k t0 T mx ∈ ts.outs) : Out.tx t s mid k true ∈ l.out := by
+  have h1 : Obs.tx t s mid k true ∈ txsS ts.outs :=
+    List.mem_filter.2 ⟨List.mem_filterMap.2 ⟨_, h, rfl⟩, rfl⟩
+  rw [ho] at h1
+  obtain ⟨o, ho1, ho2⟩ := List.mem_filterMap.1 (List.mem_filter.1 h1).1
+  cases o with
+  | tx t' s' mid' k' c =>
+    simp only [obsM, Option.some.injEq, Obs.tx.injEq] at ho2
+    obtain ⟨rfl, rfl, rfl, rfl, rfl⟩ := ho2
+    exact ho1
+  | nack t' s' reason mid' known =>
+    cases reason <;> cases known <;> simp [obsM] at ho2
+  | rsp _ _ _ => simp [obsM] at ho2
+  | wait _ _ => simp [obsM] at ho2
+  | sub _ => simp [obsM] at ho2
+
+/-! ### conservation through the simulation: first transmissions = outcomes + pending -/
+
+/-- number of FIRST transmissions of (s, mid) among observations -/
+def tx0O (s mid : Nat) : List Obs → Nat
+  | [] => 0
+  | o :: r => (match o with
+      | .tx _ s' m' 0 _ => if s' = s ∧ m' = mid then 1 else 0
+      | _ => 0) + tx0O s mid r
+
+/-- M: number of first transmissions of the Confirmable (s, mid) — `coap_send`s that got past the NSTART gate at once, and
+messages that left the delay queue -/
+def tx0C (s mid : Nat) (out : List Out) : Nat := tx0O s mid (txsM out)
+
+/-- S: number of first transmissions of (s, mid) -/
+def tx0S (s mid : Nat) : List TOut → Nat
+  | [] => 0
+  | o :: r => (match o with
+      | .tx _ s' m' 0 _ _ _ => if s' = s ∧ m' = mid then 1 else 0
+      | _ => 0) + tx0S s mid r
+
+theorem tx0S_obs (s mid : Nat) (outs : List TOut) : tx0S s mid outs = tx0O s mid (txsS outs) := by
+  induction outs with
+  | nil => rfl
+  | cons o r ih =>
+    cases o with
+    | tx t s' m' k t0 T mx =>
+      have e : txsS (TOut.tx t s' m' k t0 T mx :: r) = Obs.tx t s' m' k true :: txsS r := by
+        simp [txsS, obsS, List.filter_cons, isTx]
+      rw [e]
+      cases k <;> simp only [tx0S, tx0O, ih]
+    | nackRetries t s' m' =>
+      have e : txsS (TOut.nackRetries t s' m' :: r) = txsS r := by simp [txsS, obsS, List.filter_cons, isTx]
+      rw [e]; simp only [tx0S, ih]; omega
+    | nackRst t s' m' =>
+      have e : txsS (TOut.nackRst t s' m' :: r) = txsS r := by simp [txsS, obsS, List.filter_cons, isTx]
+      rw [e]; simp only [tx0S, ih]; omega
+    | acked t s' m' =>
+      have e : txsS (TOut.acked t s' m' :: r) = txsS r := by
+        simp only [txsS, List.filterMap_cons, obsS]
+      rw [e]; simp only [tx0S, ih]; omega
+
+theorem fire_tx0 (s mid : Nat) (f : Nat) (ts : TS) : tx0S s mid (fire f ts).outs = tx0S s mid ts.outs := by
+  induction f generalizing ts with
+  | zero => rfl
+  | succ f ih =>
+    rcases ts with ⟨now, pend, outs⟩
+    rcases pend with _ | ⟨⟨d, m⟩, r⟩
+    · rfl
+    · simp only [fire]
+      split
+      · split <;> rw [ih] <;> simp [tx0S]
+      · rfl
+
+theorem step_tx0 (s mid : Nat) (ts : TS) (ev : TEv) :
+    tx0S s mid (Timer.step ts ev).outs = sendW s mid ev + tx0S s mid ts.outs := by
+  cases ev with
+  | send s' m' T mx => simp [Timer.step, tx0S, sendW]
+  | tick now' => simp only [Timer.step, sendW]; split <;> simp [fire_tx0]
+  | tickN now' k => simp only [Timer.step, sendW]; split <;> simp [fire_tx0]
+  | ack s' m' =>
+    simp only [Timer.step, sendW]
+    rcases premove ts.pend s' m' with ⟨_ | m, r⟩ <;> simp [tx0S]
+  | rst s' m' =>
+    simp only [Timer.step, sendW]
+    rcases premove ts.pend s' m' with ⟨_ | m, r⟩ <;> simp [tx0S]
+
+theorem run_tx0 (s mid : Nat) (evs : List TEv) : ∀ ts : TS,
+    tx0S s mid (Timer.run ts evs).outs = sc s mid evs + tx0S s mid ts.outs := by
+  induction evs with
+  | nil => intro ts; simp [Timer.run, sc]
+  | cons ev evs ih =>
+    intro ts
+    have h1 := ih (Timer.step ts ev)
+    have h2 := step_tx0 s mid ts ev
+    simp only [Timer.run, List.foldl_cons, sc] at h1 ⊢
+    omega
+
+theorem obsN_filter (s mid : Nat) (l : List Obs) : obsN s mid (l.filter (fun o => !isTx o)) = obsN s mid l := by
+  induction l with
+  | nil => rfl
+  | cons o r ih =>
+    cases o with
+    | tx t s' m' k c =>
+      have e : List.filter (fun o => !isTx o) (Obs.tx t s' m' k c :: r) = List.filter (fun o => !isTx o) r := by
+        simp [List.filter_cons, isTx]
+      rw [e, ih]; simp [obsN]
+    | nackRetries t s' m' =>
+      have e : List.filter (fun o => !isTx o) (Obs.nackRetries t s' m' :: r) =
+          Obs.nackRetries t s' m' :: List.filter (fun o => !isTx o) r := by
+        simp [List.filter_cons, isTx]
+      rw [e]; simp only [obsN, ih]
+    | nackRst t s' m' =>
+      have e : List.filter (fun o => !isTx o) (Obs.nackRst t s' m' :: r) =
+          Obs.nackRst t s' m' :: List.filter (fun o => !isTx o) r := by
+        simp [List.filter_cons, isTx]
+      rw [e]; simp only [obsN, ih]
+
+theorem nackS_nks (s mid : Nat) (outs : List TOut) : nackS s mid outs = obsN s mid (nksS outs) := by
+  rw [nackS_obs, nksS, obsN_filter]
+
+theorem nackC_nks (s mid : Nat) (out : List Out) : nackC s mid out = obsN s mid (nksM out) := by
+  rw [nackC_obs, nksM, obsN_filter]
+
+/-! ### ACKs that find the message -/
+
+/-- no `ack` event in a list of S events -/
+def NoAck (evs : List TEv) : Prop := ∀ e ∈ evs, ∀ s m, e ≠ .ack s m
+
+theorem noAck_nil : NoAck [] := by intro e he; cases he
+theorem noAck_append {a b : List TEv} (ha : NoAck a) (hb : NoAck b) : NoAck (a ++ b) := by
+  intro e he; rcases List.mem_append.mp he with h | h
+  · exact ha e h
+  · exact hb e h
+theorem noAck_cons {e : TEv} {b : List TEv} (he : ∀ s m, e ≠ .ack s m) (hb : NoAck b) : NoAck (e :: b) := by
+  intro x hx; rcases List.mem_cons.mp hx with h | h
+  · rw [h]; exact he
+  · exact hb x h
+
+theorem ackS_tickN (s mid : Nat) (ts : TS) (t k : Nat) :
+    ackS s mid (Timer.step ts (.tickN t k)).outs = ackS s mid ts.outs := by
+  simp only [Timer.step]
+  split
+  · rw [ackS_fire]
+  · rfl
+
+theorem ackS_noAck (s mid : Nat) : ∀ (evs : List TEv) (ts : TS), NoAck evs →
+    ackS s mid (Timer.run ts evs).outs = ackS s mid ts.outs := by
+  intro evs
+  induction evs with
+  | nil => intro ts _; rfl
+  | cons e evs ih =>
+    intro ts h
+    simp only [Timer.run, List.foldl_cons]
+    have h1 := ih (Timer.step ts e) (fun x hx => h x (List.mem_cons_of_mem _ hx))
+    simp only [Timer.run] at h1
+    rw [h1]
+    cases e with
+    | send s' m' T mx => exact ackS_send s mid ts s' m' T mx
+    | tick t => exact ackS_tick s mid ts t
+    | tickN t k => exact ackS_tickN s mid ts t k
+    | rst s' m' => exact ackS_rst s mid ts s' m'
+    | ack s' m' => exact absurd rfl (h _ (List.mem_cons_self ..) s' m')
+
+theorem noAck_trDrain : ∀ (fuel : Nat) (l : L) (s : Nat), NoAck (trDrain fuel l s)
+  | 0, _, _ => noAck_nil
+  | fuel + 1, l, s => by
+    unfold trDrain
+    split
+    · exact noAck_nil
+    · split
+      · exact noAck_nil
+      · split
+        · exact noAck_nil
+        · apply noAck_append _ (noAck_trDrain fuel _ s)
+          split
+          · exact noAck_cons (by intro _ _ h; cases h) noAck_nil
+          · exact noAck_nil
+
+theorem noAck_trRelease (l : L) (s : Nat) : NoAck (trRelease l s) := by
+  unfold trRelease
+  split
+  · exact noAck_nil
+  · split
+    · exact noAck_trDrain _ _ _
+    · exact noAck_nil
+
+theorem noAck_trRemoved (l : L) (s mid : Nat) : NoAck (trRemoved l s mid) := by
+  unfold trRemoved
+  split
+  · exact noAck_trRelease _ _
+  · exact noAck_nil
+
+theorem noAck_trDueLoop : ∀ (fuel : Nat) (l : L), NoAck (trDueLoop fuel l)
+  | 0, _ => noAck_nil
+  | fuel + 1, l => by
+    unfold trDueLoop
+    split
+    · exact noAck_nil
+    · split
+      · split
+        · exact noAck_nil
+        · apply noAck_append _ (noAck_trDueLoop fuel _)
+          unfold trRetransmit
+          apply noAck_cons (by intro _ _ h; cases h)
+          split
+          · exact noAck_nil
+          · exact noAck_trRelease _ _
+      · exact noAck_nil
+
+/-- one M event: the `acked` outputs of S grow by one exactly when an arriving ACK finds its message in the send queue -/
+theorem ackS_stepF (mx : Nat → Nat) (s mid : Nat) (l : L) (ts : TS) (ev : Ev) (hr : RelF mx l ts)
+    (hopen : ∀ s', (l.getS s').sockOpen = true) :
+    ackS s mid (Timer.run ts (tr l ev)).outs = ackS s mid ts.outs + ackW s mid l ev := by
+  cases ev with
+  | rxAck s' m' =>
+    simp only [tr, ackW]
+    split
+    · have h2 := (remove_simF mx l ts s' m' hr.pend).2
+      simp only [Timer.run, List.foldl_cons]
+      have h3 := ackS_noAck s mid _ (Timer.step (Timer.step ts (.tickN l.now 0)) (.ack s' m'))
+        (noAck_append (noAck_trRemoved l s' m') (noAck_trDueLoop (dueFuel (rxAck l s' m')) (rxAck l s' m')))
+      simp only [Timer.run] at h3
+      rw [h3, ackS_ack, ackS_tickN, tickN0 ts l.now hr.now]
+      by_cases hf : (removeNode l.q.nodes s' m').1 = none
+      · have := h2.1 hf; simp [hf, this]
+      · have : (premove ts.pend s' m').1 ≠ none := fun h => hf (h2.2 h)
+        simp [hf, this]
+    · rename_i hso
+      exact absurd (hopen s') hso
+  | setNow t => simp [tr, Timer.run, ackW]
+  | prepare => simp only [tr, ackW, Nat.add_zero]; exact ackS_noAck s mid _ ts (noAck_trDueLoop _ _)
+  | submit s' c m' r =>
+    simp only [tr, ackW, Nat.add_zero]
+    apply ackS_noAck
+    split
+    · exact noAck_nil
+    · split
+      · exact noAck_nil
+      · split
+        · exact noAck_cons (by intro _ _ h; cases h) (noAck_cons (by intro _ _ h; cases h) noAck_nil)
+        · exact noAck_nil
+  | rxRst s' m' =>
+    simp only [tr, ackW, Nat.add_zero]
+    apply ackS_noAck
+    split
+    · exact noAck_cons (by intro _ _ h; cases h) (noAck_cons (by intro _ _ h; cases h)
+        (noAck_append (noAck_trRemoved l s' m') (noAck_trDueLoop _ _)))
+    · exact noAck_nil
+  | rxNon _ _ _ => simp [tr, Timer.run, ackW]
+  | rxBad _ _ => simp [tr, Timer.run, ackW]
+  | hold _ => simp [tr, Timer.run, ackW]
+  | connect _ => simp [tr, Timer.run, ackW]
+  | disconnect _ => simp [tr, Timer.run, ackW]
+
+theorem finv_open {pu : Prop} {par : Nat → Sess} {P : Nat → Nat → Nat → Prop} (hp : GPar par) {l : L}
+    (hi : FInv pu par P l) (s : Nat) : (l.getS s).sockOpen = true := by
+  obtain ⟨ca, dq, hg, _, _⟩ := hi.sess s
+  rw [hg]; exact (hp s).2.1
+
+theorem ackS_runF {par : Nat → Sess} {P : Nat → Nat → Nat → Prop} (hp : GPar par) (s mid : Nat) :
+    ∀ (evs : List Ev) (l : L) (ts : TS), FInv False par P l → RelF (mxOf par) l ts → RunInF l evs →
+      (∀ s mid r, Ev.submit s true mid r ∈ evs → P s mid (calcTimeout (par s).atI (par s).atF (par s).arfI (par s).arfF r)) →
+      ackS s mid (Timer.run ts (trRun l evs)).outs = ackS s mid ts.outs + ackC s mid l evs := by
+  intro evs
+  induction evs with
+  | nil => intro l ts _ _ _ _; simp [trRun, Timer.run, ackC]
+  | cons ev evs ih =>
+    intro l ts hi hr hin hP
+    have hP1 : ∀ s mid r, ev = .submit s true mid r →
+        P s mid (calcTimeout (par s).atI (par s).atF (par s).arfI (par s).arfF r) :=
+      fun s mid r h => hP s mid r (by simp [h])
+    obtain ⟨hr1, _, _⟩ := step_simF hp l ts ev hi hr hin.1 (fun h => h.elim) hP1
+    have hi1 := step_finv hp l ev hi (evInF_evG hin.1) (fun h => h.elim) hP1
+    simp only [trRun, timer_run_append, ackC]
+    rw [ih _ _ hi1 hr1 hin.2 (fun s mid r h => hP s mid r (by simp [h])),
+      ackS_stepF (mxOf par) s mid l ts ev hr (finv_open hp hi)]
+    omega
+
+/-- **conserve_simF**: `single_outcome` of S read on M through the simulation — for EVERY run over the alphabet, for every
+(session, mid): first transmissions of the Confirmable = outcome NACKs (TOO_MANY_RETRIES / RST with the sent PDU) + ACKs that
+found it + nodes in the send queue -/
+theorem conserve_simF {par : Nat → Sess} (hp : GPar par) (s mid now0 : Nat) (evs : List Ev) (l0 : L)
+    (hi : FInv False par (fun _ _ _ => True) l0) (hr : RelF (mxOf par) l0 (Timer.init now0)) (hin : RunInF l0 evs) :
+    tx0C s mid (Msg.run l0 evs).out =
+      nackC s mid (Msg.run l0 evs).out + ackC s mid l0 evs + pendC s mid (Msg.run l0 evs).q.nodes := by
+  obtain ⟨_, hr2, _, _⟩ := run_simF (pu := False) hp evs l0 (Timer.init now0) hi hr hin (fun h => h.elim)
+    (fun _ _ _ _ => trivial)
+  have hack := ackS_runF hp s mid evs l0 (Timer.init now0) hi hr hin (fun _ _ _ _ => trivial)
+  have hso := Timer.run_conserve s mid (trRun l0 evs) (Timer.init now0)
+  have htx := run_tx0 s mid (trRun l0 evs) (Timer.init now0)
+  rw [oc_split, nackS_nks, hr2.nacks, ← nackC_nks, hack, ← pc_er, hr2.pend, pc_absP] at hso
+  rw [tx0S_obs, hr2.txs] at htx
+  simp only [Timer.init, ackS, tx0S, oc, pc, Nat.zero_add, Nat.add_zero] at hso htx
+  unfold tx0C
+  omega
+
 end Coap.SimF
